@@ -121,7 +121,7 @@ def rule_window(rep, R, polys=None):
         m = asyncmodel.extract(facts, t)
         alg = make_alg(facts, t)
         H = sp.simplify(alg.conv(m["shift"]["hi"]) - alg.conv(m["shift"]["A"]))
-        idx = alg.sym("idx")
+        idx = alg.sym(m["roles"]["idx"])
         for a in m["arms"]:
             key = "%s/%s" % (t, a["variant"])
             fname, lo, width, k, xarg = fast_arm_window(a, alg)
